@@ -20,6 +20,7 @@ func checkC14(r *Result) {
 	r.rule("CLAIM-LOOKUPS", "the aggregate lookup is confined to the deposit's query and the threshold lookup to checkpoints strictly before the report")
 	r.rule("CLAIM-ONCE", "the claimed flag is stored before the mint on every path, keyed by the deposit id")
 	r.rule("CLAIM-ROUTING", "tip -> message sender, amount - tip -> decoded recipient, both out of the minted amount")
+	r.rule("CLAIM-SCALE", "the decoder hands back the reported amount and tip, each divided by 10^12, in the bond denomination")
 	r.rule("WITHDRAW-ID", "the withdrawal id is a read-modify-write counter starting at 1 and names the attested aggregate")
 	r.rule("WITHDRAW-ATTEST", "the aggregate handed to the oracle is the one built from the burned amount, the sender and the recipient")
 	r.rule("NO-WITHDRAWAL-REPORT", "PreventBridgeWithdrawalReport succeeds for TRBBridge query data only when the direction flag is true")
@@ -441,8 +442,55 @@ func checkC14(r *Result) {
 		}
 		r.check(okRet && nRet >= 1, "CLAIM-LOOKUPS", "(x/bridge/keeper.Keeper).GetValidatorSetTimestampBefore # every success return is the key found by the strictly-before scan", P.Pos(g.Pos()), fmt.Sprintf("%d success returns ; %s", nRet, why))
 	}
+	checkClaimScale(r)
+	r.minCount("CLAIM-SCALE", 2)
 	r.minCount("CLAIM-LOOKUPS", 6)
 	r.minCount("CLAIM-GUARDS", 6)
 	r.minCount("CLAIM-ONCE", 3)
 	r.minCount("WITHDRAW-ID", 3)
+}
+
+// checkClaimScale: each coin result of DecodeDepositReportValue is coins(bond denom, (decoded[k] / 10^12)) with k = 2 for
+// the amount and 3 for the tip -- the dividend is the decoded field and the divisor the constant, not the reverse.
+func checkClaimScale(r *Result) {
+	P := r.P
+	const rule = "CLAIM-SCALE"
+	fn := P.Func("(x/bridge/keeper.Keeper).DecodeDepositReportValue")
+	if fn == nil {
+		r.broken("anchor DecodeDepositReportValue does not resolve")
+		return
+	}
+	r.fn(FuncName(fn))
+	tm := NewTermer()
+	decodedAt := func(t *Term, k string) bool {
+		for (strings.HasPrefix(t.Op, "assert:") || t.Op == "load") && len(t.Args) >= 1 {
+			t = t.Args[0]
+		}
+		return t.Op == "index" && len(t.Args) == 2 && t.Args[1].Op == "const:"+k && t.Args[0].Has("call:(github.com/ethereum/go-ethereum/accounts/abi.Arguments).Unpack")
+	}
+	n := 0
+	for _, ret := range allReturns(fn) {
+		if len(ret.Results) != 4 || DefinitelyFails(ret) {
+			continue
+		}
+		for i := 1; i <= 2; i++ {
+			k := []string{"", "2", "3"}[i]
+			n++
+			t := tm.Of(unspill(ret.Results[i], ret))
+			what := map[int]string{1: "amount", 2: "tip"}[i]
+			div := t.Find(func(x *Term) bool { return x.Op == "call:(*math/big.Int).Div" })
+			ok, got := false, "no big.Int division in "+clip(t.String(), 160)
+			if div != nil && len(div.Args) == 3 {
+				got = "Div(" + div.Args[1].Brief() + ", " + div.Args[2].Brief() + ")"
+				den := div.Args[2]
+				ok = decodedAt(div.Args[1], k) && den.Op == "call:math/big.NewInt" && len(den.Args) == 1 && den.Args[0].Op == "const:1000000000000"
+			}
+			r.check(ok, rule, "(x/bridge/keeper.Keeper).DecodeDepositReportValue # "+what+" = decoded field "+k+" / 10^12", P.Pos(ret.Pos()), got)
+			denomOK := t.Find(func(x *Term) bool {
+				return (x.Op == "call:github.com/cosmos/cosmos-sdk/types.NewInt64Coin" || x.Op == "call:github.com/cosmos/cosmos-sdk/types.NewCoin") && len(x.Args) == 2 && strings.HasSuffix(x.Args[0].Op, "BondDenom") && x.Args[1].Find(func(y *Term) bool { return y == div }) != nil
+			}) != nil
+			r.check(div != nil && denomOK, rule, "(x/bridge/keeper.Keeper).DecodeDepositReportValue # "+what+" is a coin of the bond denomination holding that quotient", P.Pos(ret.Pos()), clip(t.String(), 200))
+		}
+	}
+	r.check(n >= 2, rule, "(x/bridge/keeper.Keeper).DecodeDepositReportValue # success returns to decide", P.Pos(fn.Pos()), fmt.Sprint(n))
 }
